@@ -79,3 +79,12 @@ Definition realizes (edges : list edge) (flow : list Z) (sq : list N) : Prop :=
 
 (** every intermediate marking of an ordering that starts non-negative is non-negative *)
 Definition nonneg (m : smarking) : Prop := forall s, (0 <= m s)%Z.
+
+(** the markings passed through when the edges [sq] are fired one after the other from [m] *)
+Fixpoint markings_along (edges : list edge) (m : smarking) (sq : list N) : list smarking :=
+  match sq with
+  | [] => [m]
+  | j :: sq' =>
+      m :: markings_along edges
+             (match nth_error edges (N.to_nat j) with Some e => fire_edge e m | None => m end) sq'
+  end.
